@@ -591,6 +591,42 @@ func c09Twins(t *testing.T, r *vh.Report) {
 	if scratch == "" {
 		scratch = t.TempDir()
 	}
+	// functions whose names are longer than any cap a report might apply and agree on their first
+	// 280 bytes: each still appears in exactly one entry, paired with its namesake
+	if sh, _ := vh.Shard(); sh == 0 {
+		long := strings.Repeat("VeryLongGeneratedHandlerName", 10) // 280 bytes
+		mkSrc := func(edit bool) string {
+			var sb strings.Builder
+			sb.WriteString("package longnames\n\n")
+			for _, suf := range []string{"A", "B", "Cc"} {
+				body := "\tt := 0\n\tfor i := 0; i < a; i++ {\n\t\tt += i\n\t}\n\treturn t\n"
+				if suf == "A" {
+					body = "\tf := func(v int) int { return v + a }\n\treturn f(a) * 2\n"
+					if edit {
+						body = "\tf := func(v int) int { return v - a }\n\tgo func() { _ = f(1) }()\n\treturn f(a) * 3\n"
+					}
+				}
+				fmt.Fprintf(&sb, "func %s%s(a int) int {\n%s}\n\n", long, suf, body)
+			}
+			return sb.String()
+		}
+		d := filepath.Join(scratch, "longnames")
+		os.MkdirAll(filepath.Join(d, "o"), 0o755)
+		os.MkdirAll(filepath.Join(d, "n"), 0o755)
+		lo, ln := filepath.Join(d, "o", "f.go"), filepath.Join(d, "n", "f.go")
+		oldSrc, newSrc := mkSrc(false), mkSrc(true)
+		os.WriteFile(lo, []byte(oldSrc), 0o644)
+		os.WriteFile(ln, []byte(newSrc), 0o644)
+		out, err := ComputeDiff(RealFileSystem{}, lo, ln)
+		r.Eval()
+		r.Nontrivial("long-names")
+		if err != nil {
+			r.Fail("ComputeDiff long names: %v", err)
+			return
+		}
+		fpCheckAccounting(r, "long-names", map[string]interface{}{"case": "long-names"}, out, lo, oldSrc, ln, newSrc)
+	}
+
 	type pair struct {
 		id         string
 		base, twin []progfam.Variant
